@@ -288,10 +288,14 @@ impl Prop for C14 {
         vec![Stream::new("hist", n, 900).batch(40)]
     }
     fn rule(&self) -> String {
-        "histories of 5-60 steps over two arrays generated from the byte tape by genp::arr (push/pop/shift/unshift/splice/length=/index stores of int,double,-0,NaN,string,object at dense/just-past-end/far/non-index keys, delete, literal holes, defineProperty on elements and length, freeze/seal/preventExtensions, all Array.prototype methods incl. mutating callbacks, iteration protocols, key enumeration, prototype-chain elements, 2^32-1 length episodes); after every step a canonical dump (length, own keys in order, values with -0/NaN markers, descriptor flags, inherited-under-hole markers, extensibility). The history is executed on 5 real arrays that reach the same logical starting array by different storage routes (of: literal, int->double->int, hole filled, defineProperty, Array(n)+stores, string replaced, attribute toggled, reverse stores, pop/length cut, push/Array.of, Array.from) and on 1-2 of {Proxy(arr), plain array-like, array-like with Array.prototype}. Oracles: V8 runs the same script (whole trace equal); within boa all real-array routes must print identical segments. Non-trivial = in the first real-array route the engine's actual element storage (observed through a side-channel native after every step) changed kind >= 2 times (DenseI32/DenseF64/DenseElement/SparseElement/SparseProperty, per object) and >= 3 Array.prototype method steps follow the last change, and >= 2 real-array routes ran; distinct = distinct script text".into()
+        "histories of 5-60 steps over two arrays generated from the byte tape by genp::arr (push/pop/shift/unshift/splice/length=/index stores of int,double,-0,NaN,string,object at dense/just-past-end/far/non-index keys, delete, literal holes, defineProperty on elements and length, freeze/seal/preventExtensions, all Array.prototype methods incl. callbacks that mutate the array, iteration protocols, key enumeration, prototype-chain elements incl. accessors and read-only ones, 2^32-1 length episodes); after every step a canonical dump (length, own keys in order, values with -0/NaN markers, descriptor flags, inherited-under-hole markers, extensibility) and the log of getter/setter/callback invocations. The history is executed on 5 real arrays that reach the same logical starting array by different storage routes (literal + 4 of: int->double->int, hole filled, defineProperty, Array(n)+stores, string replaced, attribute toggled, reverse stores, pop/length cut, push/Array.of, Array.from) and on 1-2 of {Proxy(arr), plain array-like, array-like inheriting Array.prototype}. Oracles: V8 runs the same script (whole trace equal, every variant); within boa all real-array routes must print identical segments. Non-trivial = in the first real-array route the engine's actual element storage (read through a side-channel native after every step, never printed) changed kind >= 2 times (DenseI32/DenseF64/DenseElement/SparseElement/SparseProperty, per object) and >= 3 Array.prototype method steps follow the last change, and >= 2 real-array routes ran; distinct = distinct script text".into()
     }
     fn assumptions(&self) -> Vec<String> {
-        vec!["V8 (node 20) implements the specification's array algorithms for the generated operations; sort only with consistent comparators; no implementation-defined text is printed (error names only)".into()]
+        vec![
+            "V8 (node 20) implements the specification's array algorithms for the generated operations; sort only with consistent comparators (default comparator only when ToString of the elements has no side effects); no implementation-defined text is printed (error names only)".into(),
+            "known V8 deviations from the specification are avoided by guards inside the script (printed as 'v8-skip'): push() without items on a non-writable length; sort on length < 2 and toSorted on length 1; Object.isFrozen / Object.freeze of arrays whose writable length is the only unfrozen property; defineProperty on an element of a sealed object".into(),
+            "generator exclusions for recorded findings (labels excluded-*): `arr.length = v` by name (rendered as arr[LEN] = v), spread syntax while a prototype has an accessor/read-only index property, the Proxy variant for histories with for-in plus an enumerable Array.prototype element, delete/defineProperty of non-index keys after a named property was reconfigured".into(),
+        ]
     }
     fn run_case(&self, env: &mut Env, _stream: &str, _index: u64, tape: &[u8]) -> CaseOut {
         let case = generate(tape, Excl::default());
